@@ -87,9 +87,16 @@ type opsStore struct {
 	// (sync.RWMutex is not reentrant): reported instead of executed.
 	locking bool
 	depth   *int
+	// lattice: symbol of the predicate with the merge declaration. Every derived fact of it is offered to the
+	// store by one lookup of the existing facts (GetFacts on that predicate); offered counts these lookups.
+	lattice    string
+	offered    *int
+	offerBound int
 }
 
 type reentrant struct{ op string }
+
+type offerOverrun struct{ offered, bound int }
 
 func (o opsStore) write(op string) {
 	o.tick()
@@ -106,6 +113,12 @@ func (o opsStore) tick() {
 }
 func (o opsStore) GetFacts(a ast.Atom, fn func(ast.Atom) error) error {
 	o.tick()
+	if a.Predicate.Symbol == o.lattice {
+		*o.offered++
+		if *o.offered > o.offerBound {
+			panic(offerOverrun{*o.offered, o.offerBound})
+		}
+	}
 	return o.inner.GetFacts(a, func(x ast.Atom) error {
 		o.tick()
 		*o.depth++
@@ -130,9 +143,9 @@ type opsStoreWithRemove struct {
 
 func (o opsStoreWithRemove) Remove(a ast.Atom) bool { o.write("Remove"); return o.rm.Remove(a) }
 
-func newOpsStore(inner factstore.FactStore, ops *int, bound int, locking bool) factstore.FactStore {
-	depth := 0
-	o := opsStore{inner: inner, ops: ops, bound: bound, locking: locking, depth: &depth}
+func newOpsStore(inner factstore.FactStore, ops *int, bound int, locking bool, lattice string, offerBound int) factstore.FactStore {
+	depth, offered := 0, 0
+	o := opsStore{inner: inner, ops: ops, bound: bound, locking: locking, depth: &depth, lattice: lattice, offered: &offered, offerBound: offerBound}
 	if rm, ok := inner.(factstore.FactStoreWithRemove); ok {
 		return opsStoreWithRemove{opsStore: o, rm: rm}
 	}
@@ -171,7 +184,16 @@ func checkMerge(run *stats.Run, f stats.Failer, c MCase) verdict {
 	bound := opsBound(R, K, L, S)
 	ops := 0
 	inner := prog.NewStore(c.Store)
-	store := newOpsStore(inner, &ops, bound, strings.HasPrefix(c.Store, "concurrent"))
+	lattice := "shortest_path"
+	if c.Shape == "m-cost" {
+		lattice = "best"
+	}
+	// Facts of the lattice predicate offered to the store: the rules of these (linear) shapes read the
+	// predicate from the main store in the first round only; afterwards every lookup is one derived fact being
+	// merged, and more than L derived facts per stratum (plus the first round: at most L+1 per rule, unchecked)
+	// must end the evaluation. 4(F+(2R+2)(L+1))+32 is twice the created-fact bound of DESIGN §3 C17.
+	offerBound := 4*(F+(2*R+2)*(L+1)) + 32
+	store := newOpsStore(inner, &ops, bound, strings.HasPrefix(c.Store, "concurrent"), lattice, offerBound)
 	opts := []engine.EvalOption{engine.WithCreatedFactLimit(L)}
 	if c.Temporal {
 		opts = append(opts, engine.WithTemporalStore(factstore.NewTemporalStore()))
@@ -181,6 +203,7 @@ func checkMerge(run *stats.Run, f stats.Failer, c MCase) verdict {
 	var over *opsOverrun
 	panicked := ""
 	reent := ""
+	var offer *offerOverrun
 	func() {
 		defer func() {
 			if r := recover(); r != nil {
@@ -190,6 +213,10 @@ func checkMerge(run *stats.Run, f stats.Failer, c MCase) verdict {
 				}
 				if re, ok := r.(reentrant); ok {
 					reent = re.op
+					return
+				}
+				if oo, ok := r.(offerOverrun); ok {
+					offer = &oo
 					return
 				}
 				panicked = fmt.Sprint(r)
@@ -202,6 +229,10 @@ func checkMerge(run *stats.Run, f stats.Failer, c MCase) verdict {
 	}
 	if reent != "" {
 		run.Failf(f, "evaluation never returns on a ConcurrentFactStore: the engine calls %s on the store from inside the store's own GetFacts callback (read lock held, write lock requested by the same goroutine); stopped by the harness instead of deadlocking\nlimit %d\nprogram:\n%s", reent, L, text)
+	}
+	if offer != nil {
+		run.Failf(f, "limit %d does not stop the evaluation of a lattice (merge predicate) program: %d derived facts of %s were offered to the store (lookups of the existing fact), more than the bound %d = 4(F+(2R+2)(L+1))+32; the store holds %d facts; evaluation aborted by the harness\nprogram:\n%s",
+			L, offer.offered, lattice, offerBound, inner.EstimateFactCount(), text)
 	}
 	if over != nil {
 		run.Failf(f, "limit %d does not make the evaluation of a lattice (merge predicate) program return: %d store operations, more than the bound %d = 16(R+1)(L+2)(2R+2)(K+1)(L+1)(S+1) with R=%d K=%d S=%d; the store holds %d facts; evaluation aborted by the harness\nprogram:\n%s",
